@@ -1,5 +1,6 @@
 import Acra.Lemmas.Pcap
 import Acra.Lemmas.ReviewC05Pcap
+import Acra.Lemmas.PcapNeg
 import Acra.Spec.Net
 namespace Acra.Props.C05
 open Acra.Py Acra.Model.Pcap Acra.Gen.Pcap Acra.Lemmas.Pcap
@@ -276,5 +277,99 @@ example :
     Rec_fits r ∧ ¬ Rec_WF r ∧
     nextRec (recBytes r) = some ({ r with orig_len := 2 }, 18) := by
   refine ⟨by simp [Rec_fits], by simp [Rec_WF], by decide⟩
+
+/-! ### review B8: negative and out-of-range indices; the sessions with their results -/
+
+/-- **negative index**: `pcap[item]` with `item < 0` is `None` — NOT the record counted from the end, as Python's
+    sequence convention would have it.  (`__getitem__` compares the running index 0, 1, 2, … of `enumerate(self)` with
+    `item`; a negative `item` is never met, so the whole file is scanned.)  For ANY object state and ANY file
+    contents; the two exceptions are those of every index access: no object (`AttributeError`), closed object
+    (`ValueError`). -/
+theorem getitem_negative (fs : FS) (item : Int) (hneg : item < 0) :
+    (getitem fs item).2 =
+      match fs.h with
+      | none => .error .attribute
+      | some h => if h.closed then .error .value else .ok none :=
+  getitem_negative' fs item hneg
+
+/-- … and on a file of records written by the library the scan leaves the read cursor at the END of the file: the
+    next `next()` raises `StopIteration`, while index access (which rewinds) still returns every record -/
+theorem getitem_negative_exhausts (fs : FS) (rs : List Rec) (pos : Nat) (item : Int) (hneg : item < 0)
+    (hwf : ∀ r ∈ rs, Rec_WF r) (hr : Readable fs (fileOf rs) pos) :
+    (getitem fs item).2 = .ok none ∧
+    (next (getitem fs item).1).2 = .error .stopIteration ∧
+    (readAll (fuelFor (getitem fs item).1) (getitem fs item).1).2 = .ok [] ∧
+    ∀ i : Nat, (getitem (getitem fs item).1 i).2 = .ok rs[i]? := by
+  obtain ⟨h1, h2⟩ := getitem_negative_readable fs rs pos item hneg hwf hr
+  refine ⟨h1, next_at_end _ _ h2, ?_, fun i => getitem_readable _ rs _ i hwf h2⟩
+  rw [readAll_readable _ _ _ _ h2, List.drop_length]
+  exact readRecs_nil _ (by simp [fuelFor])
+
+/-- **index beyond the end**: `None` (a corollary of `getitem_eq`, spelled out) -/
+theorem getitem_beyond (fs : FS) (rs : List Rec) (pos i : Nat) (hi : rs.length ≤ i) (hwf : ∀ r ∈ rs, Rec_WF r)
+    (hr : Readable fs (fileOf rs) pos) : (getitem fs i).2 = .ok none := by
+  rw [getitem_eq fs rs pos i hwf hr, List.getElem?_eq_none hi]
+
+/-- index access over ALL integers in one statement: the record with that number for `0 ≤ item < len`, `None`
+    everywhere else -/
+theorem getitem_int (fs : FS) (rs : List Rec) (pos : Nat) (item : Int) (hwf : ∀ r ∈ rs, Rec_WF r)
+    (hr : Readable fs (fileOf rs) pos) :
+    (getitem fs item).2 = .ok (if item < 0 then none else rs[item.toNat]?) := by
+  by_cases hneg : item < 0
+  · rw [if_pos hneg]
+    exact (getitem_negative_readable fs rs pos item hneg hwf hr).1
+  · rw [if_neg hneg]
+    obtain ⟨n, rfl⟩ : ∃ n : Nat, item = n := ⟨item.toNat, by omega⟩
+    simpa using getitem_eq fs rs pos n hwf hr
+
+/-- witnesses on `wRecs` (three records): `pcap[-1]`, `pcap[-3]` and `pcap[3]` are `None`, `pcap[2]` is the last record;
+    after `pcap[-1]` iteration yields nothing -/
+example : (getitem (openFile ⟨some (fileOf wRecs), none⟩ .r).1 (-1)).2.toOption = some none := by decide +kernel
+example : (getitem (openFile ⟨some (fileOf wRecs), none⟩ .r).1 (-3)).2.toOption = some none := by decide +kernel
+example : (getitem (openFile ⟨some (fileOf wRecs), none⟩ .r).1 3).2.toOption = some none := by decide +kernel
+example : (getitem (openFile ⟨some (fileOf wRecs), none⟩ .r).1 2).2.toOption = some wRecs[2]? := by decide +kernel
+example : (readAll 200 (getitem (openFile ⟨some (fileOf wRecs), none⟩ .r).1 (-1)).1).2.toOption = some [] := by
+  decide +kernel
+/-- joint witness of the hypotheses of `getitem_negative_exhausts` / `getitem_beyond` / `getitem_int` -/
+example : (-1 : Int) < 0 ∧ (∀ r ∈ wRecs, Rec_WF r) ∧
+    Readable (openFile ⟨some (fileOf wRecs), none⟩ .r).1 (fileOf wRecs) 24 :=
+  ⟨by decide, wRecs_WF, (open_r_readable _ _ rfl).2⟩
+/-- `getitem_negative` on the other object states: no object, closed object, an object open for WRITING (the scan
+    ends at once; `None`) -/
+example : (getitem FS.fresh (-1)).2 = .error .attribute := getitem_negative FS.fresh (-1) (by decide)
+example : (getitem (close (openFile FS.fresh .w).1).1 (-1)).2 = .error .value :=
+  getitem_negative (close (openFile FS.fresh .w).1).1 (-1) (by decide)
+example : (getitem (openFile FS.fresh .w).1 (-1)).2 = .ok none := getitem_negative (openFile FS.fresh .w).1 (-1) (by decide)
+
+/-- **every operation of the write sessions succeeds** (what `sessions_irrelevant` left implicit): running the
+    sessions with all results threaded (`runSessionsR`: the result of each `open`, `write`, `close`, in order) ends in
+    the same state as `runSessions`, every one of the `Σ (|session| + 2)` results is `.ok ()`, and the file is the
+    header followed by the records -/
+theorem sessions_all_ok (first : List Rec) (more : List (List Rec))
+    (hf : ∀ r ∈ first, Rec_fits r) (hm : ∀ rs ∈ more, ∀ r ∈ rs, Rec_fits r) :
+    (runSessionsR first more).1 = runSessions first more ∧
+    (∀ x ∈ (runSessionsR first more).2, x = .ok ()) ∧
+    (runSessionsR first more).2.length = (first.length + 2) + (more.map (fun rs => rs.length + 2)).sum ∧
+    (runSessionsR first more).1.file = some (fileOf (first ++ more.flatten)) := by
+  have h0 := sessionR_ok FS.fresh .w G first (open_w_writable FS.fresh) hf
+  have hfile := session_w FS.fresh first hf
+  rw [← sessionR_fst] at hfile
+  have := runSessionsR_fold more (sessionR FS.fresh .w first).1 (sessionR FS.fresh .w first).2 _ hfile hm
+  have hfst : (runSessionsR first more).1 = runSessions first more := by
+    simp only [runSessionsR, runSessions]
+    rw [this.1, sessionR_fst]
+  refine ⟨hfst, ?_, ?_, ?_⟩
+  · intro x hx
+    rcases this.2.1 x hx with h | h
+    · exact h0.1 x h
+    · exact h
+  · simp only [runSessionsR]
+    rw [this.2.2, h0.2]
+  · rw [hfst]
+    exact sessions_irrelevant first more hf hm
+
+/-- witness: the three sessions `[r0] | [] | [r1, r2]` of `wRecs`: 3 + 2 + 4 = 9 operations, all `.ok ()` -/
+example : (runSessionsR [wRecs[0]] [[], [wRecs[1], wRecs[2]]]).2.map (·.toOption) = List.replicate 9 (some ()) := by
+  decide +kernel
 
 end Acra.Props.C05
